@@ -24,13 +24,14 @@ def _lat(v, scale=1):
     return int(r)
 
 
-def _gbox(base, r, crs=CRS_A, sub=(0, 0), scale=1):
+def _gbox(base, r, crs=CRS_A, sub=(0, 0), scale=1, lin=(2, 0, 0, 2)):
     from affine import Affine
 
     from odc.geo.geobox import GeoBox
 
     A = Affine(*BASES[base])
     A = A * Affine.translation(r[0] + sub[0] / 16, r[1] + sub[1] / 16) * Affine.scale(scale)
+    A = A * Affine(lin[0] / 2, lin[1] / 2, 0, lin[2] / 2, lin[3] / 2, 0)
     return GeoBox((r[3], r[2]), A, crs)
 
 
@@ -79,6 +80,8 @@ def execute(c):
         elif why == "orientation":
             other = {"northup": "flipy", "flipy": "northup", "mirrorx": "northup", "rot90": "northup", "pythag": "northup", "nonsquare": "rot90"}[c["base"]]
             b = _gbox(other, c["b"])
+        elif why == "linear":
+            b = _gbox(c["base"], c["b"], sub=c["sub"], lin=c["m"])
         elif why == "crs":
             b = _gbox(c["base"], c["b"], crs=CRS_B)
         else:
@@ -130,8 +133,12 @@ def run(ctx):
         by = {}
         for c in cases:
             by.setdefault(c["op"], []).append(c)
-        caps = {"pair": 6000, "triple": 2500, "bbox": 1500, "enclosing": 2000, "snap": 840, "reject": 600}
-        cases = [c for op, cs in sorted(by.items()) for c in ctx.subsample(cs, caps.get(op, 1000))]
+        caps = {"pair": 6000, "triple": 2500, "bbox": 1500, "enclosing": 2000, "snap": 840, "reject": 600, "reject-lin": 1200}
+        # relative maps with a diagonal linear part (mirrors, 180 degrees, anisotropic scales) are all kept
+        keep = [c for c in by.get("reject", []) if c["why"] == "linear" and c["m"][1] == 0 and c["m"][2] == 0]
+        by["reject-lin"] = [c for c in by.get("reject", []) if c["why"] == "linear" and not (c["m"][1] == 0 and c["m"][2] == 0)]
+        by["reject"] = [c for c in by.get("reject", []) if c["why"] != "linear"]
+        cases = keep + [c for op, cs in sorted(by.items()) for c in ctx.subsample(cs, caps.get(op, 1000))]
     events = ctx.pmap(execute, cases)
     verdicts = _validate(ctx, events)
     for ev, v in zip(events, verdicts):
@@ -142,7 +149,7 @@ def run(ctx):
     ctx.exhaustive = len(cases) == total
     ctx.extra["domain_cases_total"] = total
     ctx.rule = ("cases = all pairs (and triples in a smaller window) of pixel rectangles on 6 base grids (north-up, mirrored, flipped, 90deg, Pythagorean-rotated, "
-                "non-square), incompatible-grid variants (sub-pixel offsets k/16, pixel size, orientation, CRS, no CRS), snap perturbations on both sides of half a pixel, "
+                "non-square), incompatible-grid variants (sub-pixel offsets k/16, pixel size, orientation, CRS, no CRS, every invertible relative linear map with entries in halves up to 2), snap perturbations on both sides of half a pixel, "
                 "enclosing regions on the quarter-pixel lattice in the same and in an exact-translation CRS, bounding-box triples; every case is non-trivial; distinct by input")
     ctx.assumptions = ["the two +proj=tmerc CRSs differing only in false easting/northing transform by an exact translation (measured 6e-11 m)"]
 
